@@ -666,6 +666,8 @@ func (c *Conn) WriteTx(prog TxProgram, ref *Image) (res TxResult) {
 			if !prog.NoSync {
 				j.hdrOff = c.sectorAlign(j.off)
 				j.nRec = 0
+				// writeJournalHdr() draws a fresh checksum nonce for every header
+				j.nonce = 1 + uint32(c.T.Next(1<<30))
 				if e := c.jwrite(j.hdrOff, c.journalHeader(j, prog.NoSync)); e != 0 {
 					return fail("journal-header2", e)
 				}
@@ -814,6 +816,18 @@ func (c *Conn) hotJournalProbe() (hot bool) {
 
 // GenProgram draws a rollback-mode transaction program from the tape.
 // cur is the current size in pages.
+// bigSizes are database sizes around the 256-page checksum block boundaries.
+var bigSizes = []uint32{250, 255, 256, 257, 258, 300, 400, 511, 512, 513, 520, 600, 700}
+
+// BigSize picks a size near a checksum block boundary (not above maxPages).
+func BigSize(t *Tape, maxPages uint32) uint32 {
+	n := bigSizes[t.Next(len(bigSizes))]
+	if n > maxPages {
+		n = maxPages
+	}
+	return n
+}
+
 func GenProgram(t *Tape, cur uint32, maxPages uint32, lock uint32) TxProgram {
 	var p TxProgram
 	switch t.Pick([]int{70, 12, 8}) {
